@@ -22,6 +22,7 @@ def gen_links(rng, nlinks=None, tiny=False):
     """the physical stream: 1..4 links with differing channels / rates / lengths / page layouts"""
     n = nlinks or rng.choice([1, 1, 2, 2, 3, 4])
     out = []
+    used = set()
     for _ in range(n):
         ch = rng.choice([1, 2, 2, 1, 3])
         rate = rng.choice([8000, 11025, 22050, 44100, 48000])
@@ -29,6 +30,9 @@ def gen_links(rng, nlinks=None, tiny=False):
         length = rng.choice([0, 1, 37, 300, 1024, 3000, 5000, 9000, 20000] if not tiny else [0, 1, 37, 300, 1500])
         sig = rng.randrange(6)
         seed = rng.randrange(1, 90000)
+        while seed in used:       # the serial number is seed+1000: Ogg requires it to be unique within the physical stream
+            seed = rng.randrange(1, 90000)
+        used.add(seed)
         pagemode = rng.choice([0, 0, 1, 2])
         fill = rng.choice([0, 200, 1000, 4000])
         out.append("link %d %d %s %d %d %d %d %d" % (ch, rate, q, length, sig, seed, pagemode, fill))
@@ -55,10 +59,12 @@ def model_case(cops, cout):
                 mops.append(lines[li])
                 li += 1
             assert lines[li].startswith("tableend"), lines[li]
+            st = kv(lines[li]).get("stalls", "-")
             li += 1
             while li < len(lines) and lines[li].startswith("hdrpk "):
                 mops.append(lines[li])
                 li += 1
+            mops.append("stalls " + st)
             mops.append("build")
             continue
         if li >= len(lines):
@@ -83,7 +89,17 @@ def compare(op, cline, mline):
     name = op.split(" ")[0]
     if mline is not None and "wfbroken=1" in mline:
         return "%s: the model reached a state outside DecWF (hypothesis of C07_seek_history_independent / C12_state_after_failure_is_forgotten)" % name
+    if name == "rawtell" and " tail=" in mline:
+        # the model's cursor is within the last 26 bytes of the file: the library's may rest anywhere from there up to the model's
+        try:
+            mv, tail = int(mline.split(" ")[1]), int(kv(mline)["tail"])
+            cv = int(cline.split(" ")[1])
+        except Exception:
+            return "library '%s' model '%s'" % (cline, mline)
+        return None if max(tail, 0) <= cv <= mv or cv == mv else "rawtell: library %d model %d (tail from %d)" % (cv, mv, tail)
     if name in FLOAT_OPS:
+        if cline == mline:
+            return None
         try:
             cv = float(cline.split(" ")[1])
             mv = int(mline.split(" ")[1]) / 1e9
